@@ -57,6 +57,8 @@ class Oracle:
     def raw(self, src, tname, fname, args):
         """Raw resolver result for field fname of object type tname on record src."""
         ftype = self.field_type(tname, fname)
+        if not isinstance(src, dict):
+            src = {"__id": "payload:" + repr(src), "__depth": 0}  # any value can be a source event
         h = H(self.seed, src.get("__id"), fname, _canon(args))
         fault = None
         if self.fault_density and (h >> 8) % 256 < self.fault_density:
